@@ -40,7 +40,7 @@ def _case(draw):
                            patterns=("dense", "random") if gen != "NP2.4" else ("dense", "interleaved", "random")))
     spec["n_acq"] = n
     spec["nsync"] = 1
-    spec["gain_mode"] = "uniform"
+    # NP1: per-channel gains as drawn by the metadata grammar (uniform or random per channel)
     nbatch = 256 * draw(st.integers(9, 32))
     stride = nbatch - 2 * TAPER
     nb = draw(st.integers(1, 9))
